@@ -127,10 +127,7 @@ def check_views(ctx, gf, shx, case):
         for a in at:
             if a['resiclass'].upper() == cls.upper() and a['name'].upper() not in exp_c:
                 exp_c.append(a['name'].upper())
-        got_c = []
-        for x in shx.atoms.atoms_in_class(cls):      # a name written in two spellings (O2, o2) in two residues of the class may be listed twice
-            if x.upper() not in got_c:
-                got_c.append(x.upper())
+        got_c = [x.upper() for x in shx.atoms.atoms_in_class(cls)]      # a name is listed once, in whatever case it is written
         if exp_c != got_c:
             common.add_violation(ctx, 'atoms_in_class view differs', dict(case, cls=cls), exp_c, got_c)
     n_an = sum(1 for a in at if a['ncols'] == 12)
